@@ -798,6 +798,13 @@ class VertexROIBase(Roi):
         vy = self.vy if yfunc is None else yfunc(np.asarray(self.vy))
         return self.__class__(vx=vx, vy=vy)
 
+    def copy(self):
+        """Return a clone of the Roi (with its own vertex lists)"""
+        result = copy.copy(self)
+        result.vx = list(self.vx)
+        result.vy = list(self.vy)
+        return result
+
     def add_point(self, x, y):
         """
         Add another vertex to the ROI.
@@ -1081,6 +1088,14 @@ class Projected3dROI(Roi):
     @classmethod
     def __setgluestate__(cls, rec, context):
         return cls(roi_2d=context.object(rec['roi_2d']), projection_matrix=np.asarray(rec['projection_matrix']))
+
+    def copy(self):
+        """Return a clone of the Roi (with its own 2D ROI and projection matrix)"""
+        result = copy.copy(self)
+        if self.roi_2d is not None:
+            result.roi_2d = self.roi_2d.copy()
+        result.projection_matrix = np.array(self.projection_matrix)
+        return result
 
     # TODO: these methods forward directly to roi_2d, not sure if this makes sense for all
 
@@ -1945,6 +1960,13 @@ class CategoricalROI(Roi):
             index = np.minimum(np.searchsorted(self.categories, check),
                                len(self.categories) - 1)
             return self.categories[index] == check
+
+    def copy(self):
+        """Return a clone of the Roi (with its own array of categories)"""
+        result = copy.copy(self)
+        if self.categories is not None:
+            result.categories = np.array(self.categories)
+        return result
 
     def update_categories(self, categories):
         self.categories = np.unique(self._categorical_helper(categories))
